@@ -225,12 +225,20 @@ Lens(l, a, b, cap) ==
   IN SelectSeq(cand, LAMBDA n : n >= 0 /\ n <= cap /\ n <= top + 1)
 
 RECURSIVE Samples(_, _)
+\* Elements that carry a key (the extension_type of an Extension): RFC 8446 4.2 / RFC 5246 7.4.1.4 forbid two
+\* extensions of the same type in one block, so a well-formed list has distinct keys.  Whether a receiver
+\* rejects duplicates is a matter of the handshake logic (C08), not of the codec: sample lists simply never
+\* repeat a key.
+Keyed(e) == e.t = "Struct" /\ Len(e.fs) > 0 /\ e.fs[1].t = "U" /\ e.fs[1].xs # <<>>
+\* keys are spaced so that a +-1 perturbation of one key never collides with another
+WithKey(e, x, k) == IF Keyed(e) THEN SetAt(x, 1, e.fs[1].xs[1] + 3 * k + 3) ELSE x
 SamplesMany(e, cap, l) ==
   LET t == Typ(e)
-      basic == <<<<>>, <<t>>, <<t, t>>, <<t, t, t>>>>
+      basic == <<<<>>, <<t>>, <<WithKey(e, t, 0), WithKey(e, t, 1)>>, <<WithKey(e, t, 0), WithKey(e, t, 1), WithKey(e, t, 2)>>>>
       singles == [i \in 1..Len(Samples(e, cap)) |-> <<Samples(e, cap)[i]>>]
       mixed == IF Len(Samples(e, cap)) >= 2
-               THEN <<<<Samples(e, cap)[1], t, Samples(e, cap)[Len(Samples(e, cap))]>>>> ELSE <<>>
+               THEN <<<<WithKey(e, Samples(e, cap)[1], 3), WithKey(e, t, 4),
+                        WithKey(e, Samples(e, cap)[Len(Samples(e, cap))], 5)>>>> ELSE <<>>
       \* capacity boundary of the length prefix by repetition of a fixed-size element
       big == IF l > 0 /\ e.t = "U" /\ Pow256(l) <= cap
              THEN <<Rep(t, ((Pow256(l) - 1) \div e.n) - 1), Rep(t, (Pow256(l) - 1) \div e.n),
